@@ -162,6 +162,131 @@ theorem get_modL (g : PT R → PT R) :
   | k + 1, p, .cons m rest => by simp only [modL, getL, get_modL g k p rest]
 end
 
+/-! ### the caller's readings: a type without multipliers never acquires a history -/
+
+theorem clean_iterT (i : Option Int) : ∀ t : PT R, cleanT (iterT i t) = cleanT t
+  | .base f => rfl
+  | .pen l c inner => by simp only [iterT, cleanT, clean_iterT i inner]
+
+theorem clean_clearT : ∀ t : PT R, cleanT t = true → cleanT (clearT t) = true
+  | .base f, _ => rfl
+  | .pen l c inner, h => by
+    simp only [cleanT, Bool.and_eq_true] at h
+    simp only [clearT, cleanT, Bool.and_eq_true, List.isEmpty_nil, Bool.or_true, true_and]
+    exact ⟨h.1.2, clean_clearT inner h.2⟩
+
+theorem clean_storeT (env : Env R) : ∀ (t : PT R) (i : Option Int), cleanT (storeT env i t).1 = cleanT t
+  | .base f, i => rfl
+  | .pen l c inner, i => by
+    have ih := clean_storeT env inner
+    simp only [storeT]
+    split
+    · rename_i hlag
+      split
+      · simp only [cleanT, ih, hlag, Bool.true_or]
+      · split
+        · simp only [cleanT, ih, hlag, Bool.true_or]
+        · rfl
+    · simp only [cleanT, ih]
+
+mutual
+theorem clean_modT (g : PT R → PT R) (hg : ∀ s, cleanT s = true → cleanT (g s) = true) :
+    ∀ (p : List Step) (t : PT R), cleanT t = true → cleanT (modT g p t) = true
+  | [], t, h => by simp only [modT]; exact hg t h
+  | _ :: _, .base f, _ => by simp only [modT, cleanT]
+  | .down :: p, .pen l c inner, h => by
+    simp only [cleanT, Bool.and_eq_true] at h
+    simp only [modT, cleanT, Bool.and_eq_true]
+    exact ⟨h.1, clean_modT g hg p inner h.2⟩
+  | .member m :: p, .pen l c inner, h => by
+    simp only [cleanT, Bool.and_eq_true] at h
+    simp only [modT, cleanT, Bool.and_eq_true]
+    exact ⟨⟨h.1.1, clean_modC g hg m p c h.1.2⟩, h.2⟩
+theorem clean_modC (g : PT R → PT R) (hg : ∀ s, cleanT s = true → cleanT (g s) = true) :
+    ∀ (m : Nat) (p : List Step) (c : PC R), cleanC c = true → cleanC (modC g m p c) = true
+  | _, _, .leaf i, _ => by simp only [modC, cleanC]
+  | m, p, .not t c, h => by
+    simp only [cleanC] at h
+    simp only [modC, cleanC]; exact clean_modC g hg m p c h
+  | m, p, .and ms, h => by
+    simp only [cleanC] at h
+    simp only [modC, cleanC]; exact clean_modL g hg m p ms h
+  | 0, p, .or m0 ms, h => by
+    simp only [cleanC, Bool.and_eq_true] at h
+    simp only [modC, cleanC, Bool.and_eq_true]; exact ⟨clean_modT g hg p m0 h.1, h.2⟩
+  | m + 1, p, .or m0 ms, h => by
+    simp only [cleanC, Bool.and_eq_true] at h
+    simp only [modC, cleanC, Bool.and_eq_true]; exact ⟨h.1, clean_modL g hg m p ms h.2⟩
+theorem clean_modL (g : PT R → PT R) (hg : ∀ s, cleanT s = true → cleanT (g s) = true) :
+    ∀ (m : Nat) (p : List Step) (ms : PL R), cleanL ms = true → cleanL (modL g m p ms) = true
+  | _, _, .nil, _ => by simp only [modL, cleanL]
+  | 0, p, .cons m rest, h => by
+    simp only [cleanL, Bool.and_eq_true] at h
+    simp only [modL, cleanL, Bool.and_eq_true]; exact ⟨clean_modT g hg p m h.1, h.2⟩
+  | k + 1, p, .cons m rest, h => by
+    simp only [cleanL, Bool.and_eq_true] at h
+    simp only [modL, cleanL, Bool.and_eq_true]; exact ⟨h.1, clean_modL g hg k p rest h.2⟩
+end
+
+mutual
+theorem clean_getT : ∀ (p : List Step) (t s : PT R), cleanT t = true → getT p t = some s → cleanT s = true
+  | [], t, s, h, hg => by simp only [getT, Option.some.injEq] at hg; exact hg ▸ h
+  | _ :: _, .base f, s, _, hg => by simp only [getT] at hg; cases hg
+  | .down :: p, .pen l c inner, s, h, hg => by
+    simp only [cleanT, Bool.and_eq_true] at h
+    simp only [getT] at hg; exact clean_getT p inner s h.2 hg
+  | .member m :: p, .pen l c inner, s, h, hg => by
+    simp only [cleanT, Bool.and_eq_true] at h
+    simp only [getT] at hg; exact clean_getC m p c s h.1.2 hg
+theorem clean_getC : ∀ (m : Nat) (p : List Step) (c : PC R) (s : PT R), cleanC c = true → getC m p c = some s → cleanT s = true
+  | _, _, .leaf i, s, _, hg => by simp only [getC] at hg; cases hg
+  | m, p, .not t c, s, h, hg => by
+    simp only [cleanC] at h
+    simp only [getC] at hg; exact clean_getC m p c s h hg
+  | m, p, .and ms, s, h, hg => by
+    simp only [cleanC] at h
+    simp only [getC] at hg; exact clean_getL m p ms s h hg
+  | 0, p, .or m0 ms, s, h, hg => by
+    simp only [cleanC, Bool.and_eq_true] at h
+    simp only [getC] at hg; exact clean_getT p m0 s h.1 hg
+  | m + 1, p, .or m0 ms, s, h, hg => by
+    simp only [cleanC, Bool.and_eq_true] at h
+    simp only [getC] at hg; exact clean_getL m p ms s h.2 hg
+theorem clean_getL : ∀ (m : Nat) (p : List Step) (ms : PL R) (s : PT R), cleanL ms = true → getL m p ms = some s → cleanT s = true
+  | _, _, .nil, s, _, hg => by simp only [getL] at hg; cases hg
+  | 0, p, .cons m rest, s, h, hg => by
+    simp only [cleanL, Bool.and_eq_true] at h
+    simp only [getL] at hg; exact clean_getT p m s h.1 hg
+  | k + 1, p, .cons m rest, s, h, hg => by
+    simp only [cleanL, Bool.and_eq_true] at h
+    simp only [getL] at hg; exact clean_getL k p rest s h.2 hg
+end
+
+theorem clean_TOp (o : TOp R) (t : PT R) (h : cleanT t = true) : cleanT (o.apply t) = true := by
+  cases o with
+  | iter p i => exact clean_modT _ (fun s hs => by rw [clean_iterT]; exact hs) p t h
+  | clear p => exact clean_modT _ clean_clearT p t h
+  | store p env i => exact clean_modT _ (fun s hs => by rw [clean_storeT]; exact hs) p t h
+
+/-- the penalty side of a session is the session with the caller's own list handling removed -/
+theorem runS_tree : ∀ (os : List (SOp R)) (s : Sess R),
+    (runS os s).t = (treeOps os).foldl (fun t o => o.apply t) s.t
+  | [], s => rfl
+  | .tree o :: os, s => by
+    simp only [runS, List.foldl_cons, treeOps]
+    exact runS_tree os _
+  | .hold p :: os, s => by
+    simp only [runS, List.foldl_cons, treeOps]
+    exact runS_tree os _
+  | .hmut i new :: os, s => by
+    simp only [runS, List.foldl_cons, treeOps]
+    exact runS_tree os _
+
+theorem clean_fold : ∀ (os : List (TOp R)) (t : PT R), cleanT t = true →
+    cleanT (os.foldl (fun t o => o.apply t) t) = true
+  | [], t, h => h
+  | o :: os, t, h => by simp only [List.foldl_cons]; exact clean_fold os _ (clean_TOp o t h)
+
 end generic
 
 end MysticVerif.C15
